@@ -306,11 +306,15 @@ class Context:
                 if setter is not UNDEFINED and setter is not NULL:
                     obj.define_setter(prop_name, setter)
 
-                # Check for value (only if no getter/setter)
                 if getter is UNDEFINED and setter is UNDEFINED:
-                    value = descriptor.get("value")
-                    if value is not UNDEFINED:
-                        obj.set(prop_name, value)
+                    # data descriptor: replaces an accessor of that name
+                    if descriptor.has("value"):
+                        obj._getters.pop(prop_name, None)
+                        obj._setters.pop(prop_name, None)
+                        obj.set(prop_name, descriptor.get("value"))
+                else:
+                    # accessor descriptor: replaces a data property of that name
+                    obj._properties.pop(prop_name, None)
 
             return obj
 
